@@ -155,6 +155,28 @@ def gen_a(seed):
         while fname in files:
             fname = "x" + fname
         files[fname] = "\n".join(L) + "\n"
+    if rng.random() < 0.45:
+        # a facade module that offers entities of A's first module under new names (and one under its own)
+        src = [e for e in ents if e.module == mods[0].name and e.perm == "public" and e.tracer and e.kind in ("type", "subroutine", "function", "absinterface")]
+        if src:
+            fname_, ft = f"af{sx}", T()
+            fe = Ent("A", fname_, "module", fname_, "public", ft)
+            items = []
+            for k, e in enumerate(rng.sample(src, min(len(src), 3))):
+                if k == 2:
+                    items.append(e.name)
+                    same = Ent("A", fname_, e.kind, e.name, "public", e.tracer)
+                    same.alias_of = e
+                    ents.append(same)
+                else:
+                    loc = f"fa{sx}_{e.kind[0]}{k}"
+                    items.append(f"{loc} => {e.name}")
+                    alias = Ent("A", fname_, e.kind, loc, "public", e.tracer)
+                    alias.alias_of = e
+                    ents.append(alias)
+            ents.append(fe)
+            mods.append(fe)
+            files["facade.f90"] = "\n".join([f"module {fname_}", f"!! doc {ft}", f"use {mods[0].name}, only: " + ", ".join(items), "implicit none", f"end module {fname_}"]) + "\n"
     chain = rng.random() < 0.4
     if chain:
         # A itself is documented against an externalised project A0 and extends one of its types: entities that A only imports
@@ -297,8 +319,8 @@ def gen_b(seed, A):
                 contains += [f"subroutine {pn}()", f"!! doc {t}", "integer :: k", call, f"end subroutine {pn}"]
                 ents.append(Ent("B", bname, "subroutine", pn, "public", t))
                 refs.append({"src": t, "via": "call", "text": e.name, "target": e, "needs_graph": True})
-            # documentation references
-            if rng.random() < 0.7:
+            # documentation references (not through a module of A that merely re-exports the entity: `[[module:item]]` names what the module contains)
+            if rng.random() < 0.7 and not hasattr(e, "alias_of"):
                 form = rng.choice(["plain", "module_qualified"])
                 if form == "plain" and loc == e.name.lower():
                     doc_refs.append((f"[[{e.name}]]", e))
@@ -527,7 +549,11 @@ def case(arg):
             externals = {"a_broken": bad, "projA": ext}
         b_opts = {"project": "ProjB", "graph": graph, "proc_internals": True, "external": externals}
         write_proj(b_root, B["files"], b_opts)
-        rb = site.run_cli(b_root)
+        # FORD may be started from anywhere: a relative `external` location is relative to B's project file
+        start = rng.choice(["project_dir", "project_dir", "parent_dir", "unrelated_dir"])
+        cfg["started_from"] = start
+        cwd = {"project_dir": b_root, "parent_dir": os.path.dirname(b_root), "unrelated_dir": root}[start]
+        rb = site.run_cli(b_root, project_file=os.path.relpath(os.path.join(b_root, "proj.md"), cwd), cwd=cwd)
         cfg["graph"] = graph
         w0 = {"seed": seed, "config": cfg, "external": externals}
         if rb["rc"] != 0:
@@ -605,7 +631,7 @@ def case(arg):
                 continue
             tp = pages_of(a_pages, e)
             # the A entity may legitimately be referenced when a B module imports it explicitly
-            referenced = any(r["target"] is e for r in B["refs"])
+            referenced = any(r["target"] is e or (r["target"].tracer and r["target"].tracer == e.tracer) for r in B["refs"])
             if referenced or e.kind == "variable":
                 continue
             for page, info in b_pages.items():
